@@ -1,7 +1,8 @@
 (* C09 -- identifiers are referenced verbatim; generated names never capture user names.
    Only statements here; proofs are in Proofs/IdentProofs.v, Proofs/NameGenProofs.v, Proofs/EscapeProofs.v.
    Models: Model/Ident.v (translate_ident_part; reading side = Model/SqlLex.v), Model/Escape.v (sqlparser's quote
-   doubling), Model/NameGen.v (NameGenerator and the three collision-avoidance sites).
+   doubling), Model/NameGen.v (NameGenerator and every place that draws from it: gen_table_name, assign_names,
+   RelVarNameAssigner, ensure_column_name, anchor_split, translate_select_item).
    Tables: Gen/GenKeywords.v (keyword lists, valid_ident classes, SQLite's own keyword table) and
    Gen/GenIdentDialect.v (quote character / quoting style per dialect, generator prefixes), regenerated on every run. *)
 From Coq Require Import List NArith Bool.
@@ -94,9 +95,28 @@ Proof. exists [97; 34; 34; 98], [97; 34; 98]. split; [discriminate | vm_compute;
 Print Assumptions sqlparser_ident_display_merge_refuted.
 
 (* ---------------------------------------------------------------- generated names *)
+(* Model/NameGen.v mirrors every place of /repo HEAD that draws from the two NameGenerators (pinned, with an inventory
+   of the call sites, by gen_ident_dialect.py).  `lower` stands for Rust's str::to_lowercase; the statements hold for EVERY
+   function that leaves generated names unchanged, and c09_generated_names_lower_stable shows that ASCII lower-casing of
+   the prefixes of the source is one. *)
+Notation tprefix := GenIdentDialect.table_prefix.
+Notation cprefix := GenIdentDialect.col_prefix.
 
-(* the regenerate-until-unused loop (assign_names, RelVarNameAssigner, and since 75c6718 anchor_split): whatever comes
-   out is not in the used set, something always comes out, and a name that was free is kept as it is *)
+Theorem c09_prefixes_lower :
+  lower_ascii tprefix = tprefix /\ lower_ascii cprefix = cprefix /\ ascii_only tprefix = true /\ ascii_only cprefix = true.
+Proof. vm_compute. repeat split; reflexivity. Qed.
+Print Assumptions c09_prefixes_lower.
+
+Theorem c09_generated_names_lower_stable : forall k,
+  lower_ascii (gen_name tprefix k) = gen_name tprefix k /\ lower_ascii (gen_name cprefix k) = gen_name cprefix k.
+Proof.
+  exact (fun k => conj (gen_name_lower_stable tprefix (proj1 c09_prefixes_lower) k)
+                       (gen_name_lower_stable cprefix (proj1 (proj2 c09_prefixes_lower)) k)).
+Qed.
+Print Assumptions c09_generated_names_lower_stable.
+
+(* ---- the regenerate-until-unused loop on the column side (anchor_split, translate_select_item): whatever comes out is
+   not in the used set (EXACT comparison), something always comes out, and a name that was free is kept as it is *)
 Theorem generated_names_fresh : forall p used fuel cur n nm n',
   regen fuel p used cur n = Some (nm, n') -> ~ In nm used.
 Proof. exact regen_fresh. Qed.
@@ -111,37 +131,145 @@ Theorem user_names_kept : forall p used fuel nm n, ~ In nm used -> regen fuel p 
 Proof. exact regen_keeps. Qed.
 Print Assumptions user_names_kept.
 
+(* ---- table names (fix 99a89d3).  AnchorContext::gen_table_name: the result is the generated name of some counter value
+   at or after the current one, and its lower-cased form is not in the reserved set; it ends within |reserved|+1 rounds *)
+Theorem generated_table_name_unreserved : forall lower p reserved n x n',
+  gen_table_name lower p reserved n = Some (x, n') ->
+  exists k, n <= k /\ x = gen_name p k /\ n' = N.succ k /\ ~ In (lower x) reserved.
+Proof. exact (fun lower p reserved => gen_unreserved_spec lower p reserved (S (length reserved))). Qed.
+Print Assumptions generated_table_name_unreserved.
+
+Theorem generated_table_name_terminates : forall lower p reserved,
+  (forall k, lower (gen_name p k) = gen_name p k) -> forall n, exists x n', gen_table_name lower p reserved n = Some (x, n').
+Proof. exact gen_table_name_total. Qed.
+Print Assumptions generated_table_name_terminates.
+
+(* FULL STATEMENT for a name drawn directly (alias of a wrapped sub-query, gen_query.rs): with the reserved set the code
+   builds -- the lower-cased form of EVERY table name and relation alias the user wrote in the query -- the name differs
+   from every user name when both are compared through `lower`, i.e. CASE-INSENSITIVELY; and it is the name of a counter
+   value never used before, so it differs from every name generated earlier *)
+Theorem generated_table_name_never_captures : forall lower p users n x n',
+  gen_table_name lower p (reserved_of lower users) n = Some (x, n') ->
+  (exists k, n <= k /\ x = gen_name p k /\ n' = N.succ k) /\ forall u, In u users -> lower u <> lower x.
+Proof. exact gen_table_name_never_capture. Qed.
+Print Assumptions generated_table_name_never_captures.
+
+(* the loop of assign_names / RelVarNameAssigner around it: not in the used set of the scope (EXACT comparison with the
+   names already taken there), terminates, keeps a free name, and a name it did not keep is generated and unreserved *)
+Theorem table_loop_fresh : forall lower p reserved used fuel cur n nm n',
+  regen_r fuel lower p reserved used cur n = Some (nm, n') -> ~ In nm used.
+Proof. exact regen_r_fresh. Qed.
+Print Assumptions table_loop_fresh.
+
+Theorem table_loop_terminates : forall lower p reserved used cur n,
+  (forall k, lower (gen_name p k) = gen_name p k) ->
+  exists nm n', regen_r (S (S (length used))) lower p reserved used cur n = Some (nm, n').
+Proof. exact regen_r_total. Qed.
+Print Assumptions table_loop_terminates.
+
+Theorem table_loop_keeps : forall lower p reserved used fuel nm n,
+  ~ In nm used -> regen_r fuel lower p reserved used (Some nm) n = Some (nm, n).
+Proof. exact regen_r_keeps. Qed.
+Print Assumptions table_loop_keeps.
+
+Theorem table_loop_unreserved : forall lower p reserved used fuel cur n nm n',
+  regen_r fuel lower p reserved used cur n = Some (nm, n') ->
+  (cur = Some nm /\ n' = n) \/ ((exists k, n <= k /\ nm = gen_name p k /\ k < n') /\ ~ In (lower nm) reserved).
+Proof. exact regen_with_unreserved. Qed.
+Print Assumptions table_loop_unreserved.
+
 (* CTE names / FROM aliases of one scope are pairwise distinct, for every list of declared-or-missing names *)
-Theorem generated_table_names_fresh : forall p decls n,
-  exists l n', assign_names p decls [] n = Some (l, n') /\ NoDup l /\ length l = length decls.
+Theorem generated_table_names_fresh : forall lower p reserved decls n,
+  (forall k, lower (gen_name p k) = gen_name p k) ->
+  exists l n', assign_names lower p reserved decls [] n = Some (l, n') /\ NoDup l /\ length l = length decls.
 Proof. exact assign_names_fresh. Qed.
 Print Assumptions generated_table_names_fresh.
 
-Theorem user_table_name_kept : forall p nm ds names n l n',
-  ~ In nm names -> assign_names p (Some nm :: ds) names n = Some (l, n') -> exists l', l = nm :: l'.
+Theorem user_table_name_kept : forall lower p reserved nm ds names n l n',
+  ~ In nm names -> assign_names lower p reserved (Some nm :: ds) names n = Some (l, n') -> exists l', l = nm :: l'.
 Proof. exact assign_names_keeps_user. Qed.
 Print Assumptions user_table_name_kept.
 
-(* FULL STATEMENT (holds since fix 75c6718): the column names at a sub-query split are pairwise distinct, for every
-   list of column names -- including user columns spelled like generated names -- and every generator state *)
+(* FULL STATEMENT (holds since fix 99a89d3; finding F33 was its failure): for every list of user names of the query, every
+   list of declared-or-missing names of a scope and every generator state, the loop terminates; the names of the scope
+   are pairwise distinct; and every position either keeps its declared name or holds a generated name that differs from
+   EVERY user name of the query compared case-insensitively *)
+Theorem generated_table_names_never_capture : forall lower p users decls n,
+  (forall k, lower (gen_name p k) = gen_name p k) ->
+  exists l n', assign_names lower p (reserved_of lower users) decls [] n = Some (l, n') /\
+    NoDup l /\ length l = length decls /\
+    Forall2 (fun d x => d = Some x \/ ((exists k, n <= k /\ x = gen_name p k) /\ forall u, In u users -> lower u <> lower x)) decls l.
+Proof. exact assign_names_never_capture_total. Qed.
+Print Assumptions generated_table_names_never_capture.
+
+(* ... and, the declared names being user names, a generated name of the scope differs case-insensitively from every
+   OTHER name of the scope, user-written or generated *)
+Theorem generated_table_names_ci_distinct : forall lower p users decls n l n',
+  (forall k, lower (gen_name p k) = gen_name p k) -> incl (somes decls) users ->
+  assign_names lower p (reserved_of lower users) decls [] n = Some (l, n') ->
+  forall i j di xi xj, i <> j ->
+    nth_error decls i = Some di -> nth_error l i = Some xi -> nth_error l j = Some xj ->
+    di <> Some xi -> lower xi <> lower xj.
+Proof. exact assign_names_ci_distinct. Qed.
+Print Assumptions generated_table_names_ci_distinct.
+
+(* how names are compared: the code lower-cases with Unicode rules, SQLite / MySQL / SQL Server fold (at least) ASCII
+   letters.  For an ASCII-only name g (every generated name is one) distinctness under any lower-casing that agrees with
+   ASCII lower-casing on ASCII-only strings gives distinctness under ASCII case folding *)
+Theorem lowering_covers_ascii_folding : forall (lower : str -> str) u g,
+  (forall s, ascii_only s = true -> lower s = lower_ascii s) -> ascii_only g = true ->
+  lower u <> lower g -> lower_ascii u <> lower_ascii g.
+Proof. exact lower_distinct_implies_ascii_distinct. Qed.
+Print Assumptions lowering_covers_ascii_folding.
+
+(* ---- column names.  FULL STATEMENT (holds since fix 75c6718), EXACT comparison: the column names at a sub-query split
+   are pairwise distinct, for every list of columns -- wildcards, user columns (also spelled like generated names),
+   already named or unnamed computed columns, which ensure_column_name names WITHOUT any check -- and every generator
+   state; exactly the wildcards stay unnamed *)
 Theorem generated_column_names_fresh : forall p cols n,
-  exists l n', split_names p cols [] n = Some (l, n') /\ NoDup (somes l) /\ length l = length cols.
+  exists l n', split_names p cols [] n = Some (l, n') /\ NoDup (somes l) /\ length l = length cols /\
+               Forall2 (fun c x => x = None <-> fst c = DWild) cols l.
 Proof. exact split_names_fresh. Qed.
 Print Assumptions generated_column_names_fresh.
 
-Theorem user_column_name_kept : forall p nm cs used n l n',
-  ~ In nm used -> split_names p (Some nm :: cs) used n = Some (l, n') -> exists l', l = Some nm :: l'.
+Theorem user_column_name_kept : forall p d b nm cs used n l n',
+  ensure_column_name p d b n = (Some nm, n) -> ~ In nm used ->
+  split_names p ((d, b) :: cs) used n = Some (l, n') -> exists l', l = Some nm :: l'.
 Proof. exact split_names_keeps. Qed.
 Print Assumptions user_column_name_kept.
 
-(* what the repair bought: the code before 75c6718 (ONE regeneration, unchecked) was not collision-free *)
-Theorem single_regeneration_refuted :
-  exists cols n, ~ NoDup (somes (fst (split_names_once GenIdentDialect.col_prefix cols [] n))).
+(* FULL STATEMENT (holds since fix 755de8e), EXACT comparison: the alias translate_select_item invents for a column without
+   a name is a generated name that differs from every column name in use in the query (column_names.values()) *)
+Theorem generated_alias_fresh : forall p used n,
+  exists nm n', select_item_alias p used n = Some (nm, n') /\ ~ In nm used /\ exists k, n <= k /\ nm = gen_name p k /\ k < n'.
+Proof. exact select_item_alias_fresh. Qed.
+Print Assumptions generated_alias_fresh.
+
+(* FULL STATEMENT for columns compared CASE-INSENSITIVELY (what SQLite, MySQL, SQL Server do), FALSE of the code -- finding
+   F33b, the column-side rest of F33:
+     forall cols n l n', split_names cprefix cols [] n = Some (l, n') ->
+       forall x y k, In x (somes l) -> In y (somes l) -> x = gen_name cprefix k -> lower_ascii y = lower_ascii x -> y = x
+   A user column that is a case variant of a generated name (_EXPR_0) next to an unnamed computed column. *)
+Theorem generated_column_names_ci_refuted :
+  exists cols n l n', split_names cprefix cols [] n = Some (l, n') /\
+    exists x y k, In x (somes l) /\ In y (somes l) /\ x = gen_name cprefix k /\ lower_ascii y = lower_ascii x /\ y <> x.
 Proof.
-  exists [Some (GenIdentDialect.col_prefix ++ [48]); Some [105; 100]; Some [105; 100]], 0.
-  vm_compute. apply not_nodup_witness. right. left. reflexivity.
+  exists [(DSingle (Some (upper_ascii cprefix ++ [48])), None); (DCompute, None)], 0.
+  eexists _, _. split; [vm_compute; reflexivity|].
+  exists (gen_name cprefix 0), (upper_ascii cprefix ++ [48]), 0. vm_compute.
+  split; [right; left; reflexivity|]. split; [left; reflexivity|]. split; [reflexivity|]. split; [reflexivity | discriminate].
 Qed.
-Print Assumptions single_regeneration_refuted.
+Print Assumptions generated_column_names_ci_refuted.
+
+(* PARTIAL: it holds whenever no user column reaching the split is a case variant of a generated name (the spelling of
+   the generated name itself is harmless: exact comparison handles it) *)
+Theorem generated_column_names_ci_partial : forall lower p cols n l n',
+  (forall k, lower (gen_name p k) = gen_name p k) ->
+  (forall u k, col_user_names cols u -> lower u = gen_name p k -> u = gen_name p k) ->
+  split_names p cols [] n = Some (l, n') ->
+  forall x y k, In x (somes l) -> In y (somes l) -> x = gen_name p k -> lower y = lower x -> y = x.
+Proof. exact split_names_ci_partial. Qed.
+Print Assumptions generated_column_names_ci_partial.
 
 (* ---------------------------------------------------------------- non-vacuity *)
 Example c09_ex_bare : emit {| iq := 34; always_quoted := false; extra_kw := [] |} [97; 95; 49] = [97; 95; 49].            (* a_1 *)
@@ -153,6 +281,22 @@ Proof. vm_compute. reflexivity. Qed.
 Example c09_ex_quote : emit {| iq := 34; always_quoted := false; extra_kw := [] |} [97; 34; 98] = [34; 97; 34; 34; 98; 34].  (* a''b -> ''a''''b'' *)
 Proof. vm_compute. reflexivity. Qed.
 Example c09_ex_regen : regen 5 [116] [[116;48]; [116;49]] None 0 = Some ([116;50], 3).
+Proof. vm_compute. reflexivity. Qed.
+(* a user table TABLE_0 (reserved: table_0) and a CTE without a name: the generator skips table_0 *)
+Example c09_ex_reserved : assign_names lower_ascii tprefix (reserved_of lower_ascii [upper_ascii tprefix ++ [48]]) [Some (upper_ascii tprefix ++ [48]); None] [] 0
+                          = Some ([upper_ascii tprefix ++ [48]; gen_name tprefix 1], 2).
+Proof. vm_compute. reflexivity. Qed.
+(* the hypothesis of the table theorems is satisfiable, and the names are ASCII-only *)
+Example c09_ex_stable : lower_ascii (gen_name tprefix 41) = gen_name tprefix 41 /\ ascii_only (gen_name tprefix 41) = true.
+Proof. vm_compute. split; reflexivity. Qed.
+(* ensure_column_name does not check: an unnamed computed column becomes _expr_0 whatever else is called so ... *)
+Example c09_ex_ensure : ensure_column_name cprefix DCompute None 0 = (Some (gen_name cprefix 0), 1).
+Proof. vm_compute. reflexivity. Qed.
+(* ... the split repairs it: user column _expr_0 first, then the computed one, then a second column named _expr_0 *)
+Example c09_ex_split : split_names cprefix [(DSingle (Some (gen_name cprefix 0)), None); (DCompute, None); (DWild, None); (DSingle (Some (gen_name cprefix 0)), None)] [] 0
+                       = Some ([Some (gen_name cprefix 0); Some (gen_name cprefix 1); None; Some (gen_name cprefix 2)], 3).
+Proof. vm_compute. reflexivity. Qed.
+Example c09_ex_alias : select_item_alias cprefix [gen_name cprefix 0; gen_name cprefix 1] 0 = Some (gen_name cprefix 2, 3).
 Proof. vm_compute. reflexivity. Qed.
 Example c09_ex_rows : find_dialect [115;113;108;105;116;101] rows = Some ([115;113;108;105;116;101], 34, false).
 Proof. vm_compute. reflexivity. Qed.
